@@ -376,6 +376,7 @@ def run(run):
         box['dc%d' % i] = (-1, 1)
     box['tdelta'] = (0.1, 2)
     rep = enga.AReport(run, box=box)
+    rep.definedness = True
     run.assume('claimed form: (i) each correction = exact conditional update (C07), (ii) each prediction = exact discretisation (C08), (iii) THIS CHECK: the loop applies them to the right operands in the right order on the time grid, with the joint system, initial covariance and output compensation assembled as the public models define. The induction from (i)-(iii) to equality with a one-shot Gauss-Markov solution is the standard recursion-equals-batch theorem, cited, not mechanised; numerical agreement to rounding is outside',
                'wiring: real _compute_error_propagation_matrices / _initialize_covariance / _compute_feedforward_result with real EstimationModel objects on %d enable-mask pairs with symbolic positive sds, symbolic state and readings; compute_process_matrices is intercepted to capture the joint F and Q; the noise oracle is built per physical noise source (independent of any stacking order)' % len(MODEL_CFGS),
                'dataflow: schedules of C10 (engine B); kalman.correct, the propagation matrices and the interpolation are uninterpreted deterministic tokens, so "equal terms" means the same operations on the same operands in the same order',
